@@ -917,7 +917,7 @@ class SeekNan(Family):
     name = "seek_nan"
     workers = 4
     timeout = 30.0
-    HANG_S = 1.0
+    HANG_S = 2.0
 
     def generate(self, rng, tier):
         ds = special_descs()[:3]
@@ -929,18 +929,20 @@ class SeekNan(Family):
                     yield {"desc": d, "prefix": pre, "level": level}
 
     def observe(self, case):
+        import tskit
         desc = case["desc"]
+        # everything except the call under test happens before the fork, so that the
+        # timeout measures the seek alone (not imports / table building under load)
+        ts = build_ts(desc)
+        t = tskit.Tree(ts)
+        for op in case["prefix"]:
+            apply_op(desc, t, t, op)
         r, w = os.pipe()
         pid = os.fork()
         if pid == 0:
             code = 9
             try:
                 os.close(r)
-                import tskit
-                ts = build_ts(desc)
-                t = tskit.Tree(ts)
-                for op in case["prefix"]:
-                    apply_op(desc, t, t, op)
                 try:
                     if case["level"] == "python":
                         t.seek(float("nan"))
@@ -961,7 +963,7 @@ class SeekNan(Family):
             if p == pid:
                 done = True
                 break
-            time.sleep(0.02)
+            time.sleep(0.01)
         if not done:
             os.kill(pid, signal.SIGKILL)
             os.waitpid(pid, 0)
